@@ -82,9 +82,11 @@ FirstIsOutermost == Done /\ Len(obs.enter) > 0 =>
 (* ---- C19: WithRecover is the interceptor "R" ---- *)
 \* sc.panic = [value : "none"|"nil"|"error"|"string"|"struct"|"abort", at : 0.. (sends before the panic)]
 Range(q) == {q[i] : i \in 1..Len(q)}
-Recovers(s) == "panic" \in DOMAIN s /\ s.panic.value \notin {"none", "abort"} /\ "R" \in Range(Flatten(s.opts))
+\* ("fail": the handler does not panic, it returns an ordinary error at that point -- WithRecover has nothing to do)
+Recovers(s) == "panic" \in DOMAIN s /\ s.panic.value \notin {"none", "abort", "fail"} /\ "R" \in Range(Flatten(s.opts))
+Fails(s) == "panic" \in DOMAIN s /\ s.panic.value = "fail"
 HandleCalls(s) == IF Recovers(s) THEN 1 ELSE 0
-Panics(s) == "panic" \in DOMAIN s /\ s.panic.value # "none"
+Panics(s) == "panic" \in DOMAIN s /\ s.panic.value \notin {"none", "fail"}
 \* layers declared before R return normally when R converts the panic; everything else is unwound
 RECURSIVE Before(_, _)
 Before(q, n) == IF q = <<>> \/ Head(q) = n THEN <<>> ELSE <<Head(q)>> \o Before(Tail(q), n)
